@@ -268,6 +268,16 @@ fn one<T: Serialize + for<'de> Deserialize<'de> + PartialEq + std::fmt::Debug + 
                 Err(e) => out.oracle(false, "from_value(to_value(x)) succeeds", || format!("{:?} -> {}: {}", x, show_value(&v), e)),
             }
         }
+        // the way out to serde_json, through both entry points (inherent method, From impl): what
+        // serde_json deserializes from the converted value is the datum again
+        if roundtrip {
+            for (name, sjv) in [("into_serde_json", v.clone().into_serde_json()), ("From<Value> for serde_json::Value", serde_json::Value::from(v.clone()))] {
+                match serde_json::from_value::<T>(sjv.clone()) {
+                    Ok(y) => out.oracle(&y == x, "serde_json::from_value(to_value(x) converted to serde_json) = x", || format!("{}: {:?} -> {} -> {:?}", name, x, sjv, y)),
+                    Err(e) => out.oracle(false, "serde_json::from_value of the converted value succeeds", || format!("{}: {}: {}", name, sjv, e)),
+                }
+            }
+        }
         match serde_json::to_value(x) {
             Ok(sj) => {
                 let w = Value::from_serde_json(sj);
